@@ -379,4 +379,32 @@ def proto (p : Nat × Nat) : Proto Sh PC Act := ⟨step p⟩
 
 end Basis
 
+/-! ## why the caches are replaced and not updated: a spline basis reset field by field -/
+namespace BasisInPlace
+
+/-- the cached basis as two fields: the key it answers to in `same_basis`, and the parameters its design matrix was built for -/
+structure Sh where
+  key : Nat × Nat
+  mat : Nat × Nat
+deriving DecidableEq, Repr
+
+inductive PC | same | wKey | wMat | use | done (got : Nat × Nat)
+deriving DecidableEq, Repr
+
+inductive Act | rKey | wKey | wMat | rMat
+deriving DecidableEq, Repr
+
+/-- a call with parameters `p` on a cache that is updated IN PLACE (key first, then the matrix) -/
+def step (p : Nat × Nat) (s : Sh) (pc : PC) : Sh × PC × Option Act :=
+  match pc with
+  | .same => (s, if s.key = p then .use else .wKey, some .rKey)
+  | .wKey => ({ s with key := p }, .wMat, some .wKey)
+  | .wMat => ({ s with mat := p }, .use, some .wMat)
+  | .use => (s, .done s.mat, some .rMat)
+  | .done g => (s, .done g, none)
+
+def proto (p : Nat × Nat) : Proto Sh PC Act := ⟨step p⟩
+
+end BasisInPlace
+
 end PbVerif.Threads
